@@ -125,6 +125,11 @@ HIGHER_ORDER = {
 }
 
 MUTATING_LIST_METHODS = {'append', 'extend', 'insert'}
+INPLACE_METHODS = {'sort', 'fill', 'resize', 'put', 'itemset', 'partition', 'byteswap', 'setfield',
+                   'reverse', 'append', 'extend', 'insert', 'pop', 'remove', 'clear', 'update',
+                   'setdefault', 'popitem'}
+INPLACE_FUNCTIONS = {'numpy.put', 'numpy.place', 'numpy.copyto', 'numpy.putmask', 'numpy.random.shuffle',
+                     'numpy.fill_diagonal', 'numpy.ndarray.sort', 'numpy.put_along_axis', 'random.shuffle'}
 
 BINOPS = {ast.Add: '+', ast.Sub: '-', ast.Mult: '*', ast.Div: '/', ast.Pow: '**',
           ast.FloorDiv: '//', ast.Mod: '%', ast.MatMult: '@', ast.BitAnd: '&',
@@ -203,6 +208,7 @@ class Builder:
         self.notes = []
         self.call_sites = 0
         self.inlined = set()
+        self.mutations = []   # (kind, receiver Node, ast node, FuncInfo): in-place updates
         self.assign_log = []  # (FuncInfo, ast.Name target, Node) for every plain-name assignment
         self.opaque = {}      # function fullname -> symbol name (result is a named dimensionless constant)
 
@@ -697,6 +703,8 @@ class Builder:
                                          for k, v in zip(recv.val, recv.args)], at=at)
         if name == 'copy' and recv.kind in ('dict', 'list', 'tuple'):
             return recv
+        if name in INPLACE_METHODS:
+            self.mutations.append(('in-place method %s()' % name, recv, at, self.frame.func))
         return self.mk('mcall', name, [recv] + args, kw, at=at)
 
     def call_ext(self, name, args, kw, at):
@@ -731,6 +739,10 @@ class Builder:
         if name == 'builtins.dict' and len(args) == 1 and args[0].kind == 'dict' and not kw:
             return self.mk('dict', list(args[0].val), list(args[0].args), at=at)
         n = self.mk('call', name, args, kw, at=at)
+        if 'out' in kw:
+            self.mutations.append(('out= argument of %s' % name, kw['out'], at, self.frame.func))
+        if name in INPLACE_FUNCTIONS and args:
+            self.mutations.append(('in-place function %s' % name, args[0], at, self.frame.func))
         mode = HIGHER_ORDER.get(name)
         if mode and args:
             self.apply_ho(n, mode, args, kw, at)
@@ -978,6 +990,7 @@ class Builder:
                 recv = self.eval(recv_ast)
                 if recv.kind not in ('obj', 'module', 'class', 'closure', 'extfunc', 'super'):
                     args = [self.eval(a) for a in v.args]
+                    self.mutations.append(('in-place method %s()' % name, recv, v, self.frame.func))
                     if name == 'update' and recv.kind == 'dict' and len(args) == 1 \
                             and args[0].kind == 'dict':
                         keys = list(recv.val)
@@ -1013,6 +1026,7 @@ class Builder:
         cur = self.eval(_as_load(st.target))
         v = self.eval(st.value)
         op = BINOPS.get(type(st.op), '?')
+        self.mutations.append(('augmented assignment', cur, st, self.frame.func))
         new = self.binop(op, cur, v, st)
         self.assign(st.target, new)
         return 'fall'
@@ -1036,13 +1050,6 @@ class Builder:
             base = self.eval(t.value)
             self.set_attr(base, t.attr, v, t)
         elif isinstance(t, ast.Subscript):
-            if rebinding:
-                # receiver itself is a subscript expression: x[i].append(..)
-                base = self.eval(t.value)
-                idx = self.eval(t.slice)
-                new = self.mk('store', None, [base, idx, v], at=t)
-                self.assign(t.value, new, rebinding=True)
-                return
             base = self.eval(t.value)
             idx = self.eval(t.slice)
             if base.kind == 'dict' and idx.kind == 'const':
@@ -1055,6 +1062,7 @@ class Builder:
                 new = self.mk('dict', keys, vals, at=t)
             else:
                 new = self.mk('store', None, [base, idx, v], at=t)
+                self.mutations.append(('subscript store', base, t, self.frame.func))
             if base.kind in ('obj', 'module', 'class'):
                 return
             self.assign(t.value, new, rebinding=True)
@@ -1315,6 +1323,20 @@ class Builder:
         return 'fall'
 
     def s_For(self, st):
+        # loops over a literal list/tuple of string constants are unrolled (dict
+        # construction idiom: `for var in varnames: d[var] = ...`)
+        if not st.orelse and not any(isinstance(n, (ast.Break, ast.Continue)) for b in st.body
+                                     for n in ast.walk(b)):
+            saved_trace_len = len(self.trace)
+            it = self.eval(st.iter)
+            if it.kind in ('list', 'tuple') and 0 < len(it.args) <= 24 and \
+                    all(a.kind == 'const' and isinstance(a.val, str) for a in it.args):
+                for a in it.args:
+                    self.assign(st.target, a)
+                    out = self.exec_block(st.body)
+                    if out != 'fall':
+                        return out
+                return 'fall'
         return self.run_loop(st, True)
 
     def s_While(self, st):
